@@ -25,7 +25,7 @@ RULE = ('random well-bracketed programs over seterr/seterrcall/geterrcall/errche
         "<= 7 instructions per level, 'all', unknown kinds/reactions, exits by exception) with the profile compared "
         'after every instruction, plus the reaction table at the four errcheck call sites: constructor (7 kinds x 5 reactions), filter '
         '(empty on the result; the six other kinds on a table built while the kind was ignored and then filtered in place), '
-        'update_ids(inplace=False) (obsdup/sampdup on the renamed copy) and collapse (empty); '
+        'update_ids(inplace=False) (obsdup/sampdup on the renamed copy; and the six non-empty kinds on a latent-defective table with a mapping that renames nothing, in place) and collapse (empty); '
         'non-trivial = a program that changes the profile at least once or a triggering reaction cell; distinct by case hash')
 TRUSTED = ['translator tools/py2v (fail-closed, self-tested by tools/py2v/selftest.py) with its signature file '
            'tools/py2v/sigs/err.json and the hand-written types coq/Model/ErrTypes.v; the generated model is also '
@@ -218,7 +218,7 @@ def run_react(c):
         src = list(t.ids(axis=ax))
         idmap = {src[0]: 'q', src[1]: 'q'} if c['trigger'] else {src[0]: 'q'}
         ev = observe(lambda: t.update_ids(idmap, axis=ax, strict=False, inplace=False) and None)
-    elif site == 'filter_inplace':
+    elif site in ('filter_inplace', 'update_ids_noop'):
         # a table that was built while the kind was ignored, then an in-place filter (keeping every id
         # of the axis the defect is not on) under the configured reaction: filter ends in errcheck(table)
         E.seterr(all='ignore')
@@ -229,7 +229,12 @@ def run_react(c):
             E.seterrcall(c['errkind'], _cb(c['errkind'], 1))
         ax = 'sample' if c['errkind'].startswith('obs') else 'observation'
         keep = list(dict.fromkeys(t.ids(axis=ax)))
-        ev = observe(lambda: t.filter(keep, axis=ax, inplace=True) and None)
+        if site == 'update_ids_noop':
+            # update_ids ends in errcheck(result) whatever the mapping does: a mapping that renames nothing
+            # (empty, strict=False) on the axis the defect is not on, in place
+            ev = observe(lambda: t.update_ids({}, axis=ax, strict=False, inplace=True) and None)
+        else:
+            ev = observe(lambda: t.filter(keep, axis=ax, inplace=True) and None)
     out = [['check', ev], snap()]
     reset()
     return out
@@ -441,8 +446,9 @@ def react_cases():
         for r in REACTIONS:
             for trig in (True, False):
                 rows, cols, oids, sids, omd, smd = _defect(k, trig)
-                out.append({'kind': 'react', 'site': 'filter_inplace', 'errkind': k, 'reaction': r, 'trigger': trig,
-                            'view': view_of_table_args(rows, cols, oids, sids, omd, smd)})
+                for site in ('filter_inplace', 'update_ids_noop'):
+                    out.append({'kind': 'react', 'site': site, 'errkind': k, 'reaction': r, 'trigger': trig,
+                                'view': view_of_table_args(rows, cols, oids, sids, omd, smd)})
     for site in ('filter', 'collapse'):
         for r in REACTIONS:
             for trig in (True, False):
